@@ -1353,6 +1353,41 @@ const SPECS: &[Spec] = &[
         tail: None,
         note: "the result is `suspended` after the call.",
     },
+    Spec {
+        id: "C09",
+        file: "src/commons/queue.rs",
+        ty: "Queue",
+        method: "claim_scheduled_pending_task",
+        lean: "Queue.claim_fold_step",
+        sig: "&self->Result<Option<(Box<Ident>,serde_json::Value)>,Error>",
+        binders: "{κ : Type} (split : κ → Option (Nat × κ)) (now : Nat) (acc : Option (Nat × κ)) (key : κ)",
+        args: "split now acc key",
+        ret: "Option (Nat × κ)",
+        num: Num::Nat,
+        names: &[("Self::split_storage_key(&key)", "split key"), ("now", "now")],
+        methods: &[],
+        state_ty: &[],
+        elem_ty: "",
+        enums: &[],
+        structs: &[],
+        types: &[],
+        opaque_lets: &[],
+        effects: &[],
+        wrapper: Some((
+            "self.store.execute(Self::lock_scope(),|store|{letnow=Self::now();letSome((_,key))=store.list_keys(Self::pending_scope())?.into_iter().fold(None,",
+            "acc,key",
+            ")else{returnOk(Ok(None))};letSome((_,name))=Self::split_storage_key(&key)else{returnOk(Err(Error::other(format!(\"Cannotloadtask:storagekey'{key}'issuddenly\\invalid.Thisisabug.\"))));};ifletSome(value)=store.get(Self::pending_scope(),&key)?{letmutnew_key=Self::task_storage_key(name,Some(now));ifstore.has(Self::running_scope(),&new_key)?{std::thread::sleep(Duration::from_millis(1));new_key=Self::task_storage_key(name,None);}store.move_value(Self::pending_scope(),&key,Self::running_scope(),&new_key)?;Ok(Ok(Some((new_key,value))))}else{Ok(Ok(None))}})?",
+        )),
+        cond_effects: &[],
+        self_fields: &[],
+        mut_params: &[],
+        extern_enums: &[],
+        tail: None,
+        note: "only the closure handed to `fold(None, …)` over the keys of the pending scope is translated (one step of the \
+               choice of the task to claim); the rest of the function - the clock reading `now`, the fold itself starting from \
+               `None`, the move of the chosen entry to the running scope - is compared verbatim; `split_storage_key` is the \
+               parameter `split` (time stamp and name of a storage key).",
+    },
 ];
 
 type R = Result<String, String>;
@@ -1593,6 +1628,13 @@ impl<'a> Tr<'a> {
                     }
                 }
                 Err(format!("field access `{c}` (not in the name map)"))
+            }
+            E::Tuple(t) if t.elems.len() >= 2 => {
+                let mut parts = Vec::new();
+                for el in &t.elems {
+                    parts.push(self.expr(el, ind)?);
+                }
+                Ok(format!("({})", parts.join(", ")))
             }
             E::Cast(_) => Err(format!("cast `{c}` (not in the name map)")),
             E::Macro(_) => Err(format!("macro `{c}`")),
@@ -1869,6 +1911,31 @@ impl<'a> Tr<'a> {
                 }
                 self.seq(rest, ctl, ind)
             }
+            Item::S(syn::Stmt::Local(l))
+                if matches!(&l.pat, syn::Pat::TupleStruct(t) if compact(&t.path) == "Some" && t.elems.len() == 1)
+                    && l.init.as_ref().map_or(false, |i| i.diverge.is_some()) =>
+            {
+                // `let Some(<binders>) = e else { <diverging block> };` ↦ `match e with | some <binders> => rest | none => <block>`
+                if self.seen_loop || self.in_loop || ctl != Ctl::Fn {
+                    return Err("let-else in a loop function or inside a value block".into());
+                }
+                let syn::Pat::TupleStruct(t) = &l.pat else { unreachable!() };
+                let init = l.init.as_ref().unwrap();
+                let (_, else_e) = init.diverge.as_ref().unwrap();
+                let syn::Expr::Block(eb) = &**else_e else {
+                    return Err("let-else whose else branch is not a block".into());
+                };
+                let scrut = self.expr(&init.expr, ind)?;
+                let (nl, no) = (self.locals.len(), self.opaque.len());
+                // the else branch sees none of the binders and must leave the function (`seq` rejects a block that
+                // reaches its end without a value)
+                let el = self.seq(&Self::block_items(&eb.block, &[]), ctl, ind + 4)?;
+                self.locals.truncate(nl);
+                self.opaque.truncate(no);
+                let binder = self.some_binder(&t.elems[0])?;
+                let r = self.seq(rest, ctl, ind + 4)?;
+                Ok(format!("{p}match {scrut} with\n{p}| some {binder} =>\n{r}\n{p}| none =>\n{el}", p = pad(ind)))
+            }
             Item::S(syn::Stmt::Local(l)) => {
                 let (name, mutable) = match &l.pat {
                     syn::Pat::Ident(i) if i.by_ref.is_none() && i.subpat.is_none() => (i.ident.to_string(), i.mutability.is_some()),
@@ -2077,6 +2144,39 @@ impl<'a> Tr<'a> {
                 self.locals.truncate(nl);
                 self.opaque.truncate(no);
                 Ok(format!("{p}match {scrut} with\n{p}| some {binder} =>\n{t}\n{p}| none =>\n{el}", p = pad(ind)))
+            }
+            E::If(i) if matches!(&*i.cond, E::Binary(b) if matches!(b.op, syn::BinOp::And(_)) && matches!(&*b.left, E::Let(_))) => {
+                // `if let Some(<binders>) = e && <cond> { A } [else { B }]` (let chain): A when the pattern matches and the
+                // condition holds, B (or what follows) otherwise
+                let E::Binary(b) = &*i.cond else { unreachable!() };
+                let E::Let(l) = &*b.left else { unreachable!() };
+                let inner = match &*l.pat {
+                    syn::Pat::TupleStruct(t) if compact(&t.path) == "Some" && t.elems.len() == 1 => &t.elems[0],
+                    p => return Err(format!("`if let {}` (only `Some(…)` is in the fragment)", compact(p))),
+                };
+                let (nl, no) = (self.locals.len(), self.opaque.len());
+                let else_items: Vec<Item> = match &i.else_branch {
+                    None => rest.to_vec(),
+                    Some((_, eb)) => match &**eb {
+                        E::Block(bl) if bl.label.is_none() => Self::block_items(&bl.block, rest),
+                        _ => return Err(format!("else branch `{}` of a let chain", compact(&**eb))),
+                    },
+                };
+                let el = self.seq(&else_items, ctl, ind + 6)?;
+                self.locals.truncate(nl);
+                self.opaque.truncate(no);
+                let scrut = self.expr(&l.expr, ind)?;
+                let binder = self.some_binder(inner)?;
+                let cond = self.prop(&b.right, ind)?;
+                let then_items = Self::block_items(&i.then_branch, rest);
+                let t = self.seq(&then_items, ctl, ind + 6)?;
+                self.locals.truncate(nl);
+                self.opaque.truncate(no);
+                Ok(format!(
+                    "{p}match {scrut} with\n{p}| some {binder} =>\n{p4}if {cond} then\n{t}\n{p4}else\n{el}\n{p}| none =>\n{el}",
+                    p = pad(ind),
+                    p4 = pad(ind + 4)
+                ))
             }
             E::If(i) => {
                 let cc = compact(&*i.cond);
@@ -2502,15 +2602,22 @@ fn gen_fn(repo: &Path, spec: &Spec) -> R {
     let block: &syn::Block = match spec.wrapper {
         None => &f.block,
         Some((prefix, param, suffix)) => {
-            struct First<'a>(Option<&'a syn::ExprClosure>);
+            // the first closure; for a parameter list `a,b` (several parameters): the first closure with exactly these
+            // parameters, wherever it is nested - the code around it is still compared verbatim
+            struct First<'a>(Option<&'a syn::ExprClosure>, Option<&'static str>);
             impl<'ast> syn::visit::Visit<'ast> for First<'ast> {
                 fn visit_expr_closure(&mut self, c: &'ast syn::ExprClosure) {
                     if self.0.is_none() {
-                        self.0 = Some(c);
+                        let ps: Vec<String> = c.inputs.iter().map(|p| compact(p)).collect();
+                        if self.1.map_or(true, |want| ps.join(",") == want) {
+                            self.0 = Some(c);
+                            return;
+                        }
                     }
+                    syn::visit::visit_expr_closure(self, c);
                 }
             }
-            let mut fc = First(None);
+            let mut fc = First(None, if param.contains(',') { Some(param) } else { None });
             syn::visit::Visit::visit_block(&mut fc, &f.block);
             let cl = fc.0.ok_or("no closure found in the body")?;
             let syn::Expr::Block(b) = &*cl.body else {
@@ -2518,9 +2625,18 @@ fn gen_fn(repo: &Path, spec: &Spec) -> R {
             };
             let expected = format!("{{{prefix}|{param}|{}{suffix}}}", compact(&b.block));
             if compact(&f.block) != expected {
+                if std::env::var("VERIF_TR_DEBUG").is_ok() {
+                    eprintln!("function body: {}\nclosure body: {}", compact(&f.block), compact(&b.block));
+                }
                 return Err(format!("the code around the closure changed (expected `{prefix}|{param}|{{…}}{suffix}`)"));
             }
-            tr.locals.push((param.to_string(), true));
+            if param.contains(',') {
+                for p1 in param.split(',') {
+                    tr.locals.push((p1.to_string(), false));
+                }
+            } else {
+                tr.locals.push((param.to_string(), true));
+            }
             &b.block
         }
     };
